@@ -1104,7 +1104,7 @@ pub fn replay(doc: &J, id: &str) -> i32 {
         let obs = runner.run_cell(&prog, &cell, &root, &[]);
         print!("{}", obs.history(&root));
         match judge_c07_process(&obs) {
-            Some(x) if x.id() == id => {
+            Some(x) if id == "*" || x.id() == id => {
                 println!("REPRODUCED {}", x.id());
                 println!("{}", x.detail);
                 println!("VIOLATION property=C07 replay=<this file>");
@@ -1125,7 +1125,7 @@ pub fn replay(doc: &J, id: &str) -> i32 {
         let obs = runner.run_cell(&prog, &cell, &root, &[]);
         let verdict = judge(&cell, &exp, &obs, &root, &crate::props::preamble_text(), Some(&plain));
         print!("{}", obs.history(&root));
-        match verdict.violations.iter().find(|x| x.id() == id) {
+        match verdict.violations.iter().find(|x| id == "*" || x.id() == id) {
             Some(x) => {
                 println!("REPRODUCED {}", x.id());
                 println!("{}", x.detail);
